@@ -10,10 +10,14 @@ EXPLANATION = ("C03: the encoder's structure is compared with the Source Map v3 
                "every writer; (R4) VLQ writer shape/alphabet and who-may-call encode_vlq; (R5) sections written "
                "recursively with unswapped offsets."
                " (R8) the data URL is standard padded base64 behind the literal preamble."
-               " (RW) the wire structs RawSourceMap/RawSection carry derived serde impls only, so key names and optionality are exactly what the attributes say.")
+               " (RW) the wire structs RawSourceMap/RawSection carry derived serde impls only, so key names and optionality are exactly what the attributes say."
+               " (R9) tokens are sorted by generated position after every write (SourceMap::new, adjust_mappings on every exit), which the line-advancing writer relies on.")
 NOT_DECIDED = "that an independent v3 reader decodes exactly the map's tokens for all maps (value-level)."
 
 RULES = {
+    # the writer advances the generated line and takes deltas against the previous token: it relies on the tokens being
+    # ordered by generated position whatever produced the map (constructor, adjust_mappings)
+    "C03.R9": lambda ctx: __import__("rules.typesrules", fromlist=["x"]).sort_after_write(ctx, "C03.R9"),
     "C03.RW": lambda ctx: __import__("rules.foundations", fromlist=["x"]).wire_types_derived_only(ctx, "C03.RW"),
     "C03.RG": lambda ctx: __import__("rules.foundations", fromlist=["x"]).no_global_state(ctx, "C03.RG"),
     # the data URL the encoder side produces is standard padded base64 behind the literal preamble
